@@ -7,6 +7,7 @@ import native as nat
 
 EXPLANATION = ('C11: real Bracket_Method::Bracket, Brent::Minimize, Find_Minimum/Find_Maximum and the three Minimization::minimize overloads with an uninterpreted objective, all paths up to a bound on the number of objective evaluations: '
                'Bracket returns a bracketing triple (fb <= fa, fb <= fc, bx between ax and cx, stored values are the objective at the stored points); Brent returns the point of least value seen, inside the bracket; '
+               'inductive step over the Brent loop from an arbitrary state satisfying its invariant (module variant lowered with loop rotation disabled): evaluation inside the current bracket, best value never increases, invariant re-established - for every number of iterations; '
                'Find_Minimum is never worse than both starting abscissae; Find_Maximum(f) and Find_Minimum(-f) give identical terms; Nelder-Mead: reported fmin / y / simplex are the objective at the reported points, best-first, never worse than the best initial vertex; the convenience overloads start from point + delta*e_i.')
 BOUNDS = {'quick': {'bracket_evals': 5, 'brent_evals': 3, 'findmin_evals': 5, 'nm_dims': [1, 2], 'nm_extra_evals': 3}, 'thorough': {'bracket_evals': 7, 'brent_evals': 6, 'findmin_evals': 8, 'nm_dims': [1, 2, 3], 'nm_extra_evals': 5}}
 NOT_DECIDED = ['all convergence-distance clauses (returned point within the tolerance-implied distance of the true minimiser)', 'behaviour beyond the evaluation bound (paths with more evaluations are cut)']
@@ -17,7 +18,9 @@ NATIVE_SRCS = ['Special_Functions.cpp', 'Utilities.cpp', 'Linear_Algebra.cpp', '
 KEEP = ['verif_c11_bracket', 'verif_c11_brent', 'verif_c11_findmin', 'verif_c11_findmax', 'verif_c11_nm']
 G = {}
 def module(ctx):
-    if 'm' not in G: G['m'] = ctx.lower(SRCS, 'C11.cpp', KEEP)
+    if 'm' not in G:
+        G['m'] = ctx.lower(SRCS, 'C11.cpp', KEEP)
+        G['m_norot'] = ctx.lower(SRCS, 'C11.cpp', KEEP, extra=['-mllvm', '-rotation-max-header-size=0'])      # same sources, loop rotation disabled: the loop headers carry the source-level loop state (used by the loop-step job only)
     return G['m']
 def native(ctx): return ctx.native(NATIVE_SRCS, 'C11.cpp')
 from num_common import user_f, user_fv, calls, F1
@@ -65,6 +68,50 @@ def job_brent(K):
         res.append(prove('%s/inside-bracket[%d]' % (tag, pi), hyp, z3.And(lo <= xm, xm <= hi), 60000, mv, key='C11/brent/inside-bracket', tactic='nra'))
         res.append(prove('%s/evaluates-inside-bracket[%d]' % (tag, pi), hyp, z3.And(*[z3.And(lo <= toR(c[1][0]), toR(c[1][0]) <= hi) for c in cs]), 60000, mv, key='C11/brent/evaluates-inside', tactic='nra'))
     res.append(ob(tag + '/coverage', 'discharged' if nret else 'broken', key='C11/coverage', detail='%d returning of %d paths' % (nret, len(paths))))
+    return res
+
+def job_brent_step():
+    """inductive step over Brent's loop (module lowered with loop rotation disabled, so that the loop header carries exactly the source-level state a, b, x, w, v, fx, fw, fv, d, e, iter):
+       from an ARBITRARY state satisfying the invariant (original bracket [lo,hi] contains a <= x <= b and w, v; f-values are the objective at their points; fx <= fw, fx <= fv) one real iteration
+       evaluates the objective inside [a,b], returns x / fx on termination, and re-establishes the invariant at the back edge with the best value not increased.  Covers every number of iterations."""
+    res = []; tag = 'brent/loop-step'; mod = G['m_norot']; AX, BX, CX = z3.Real('ax'), z3.Real('bx'), z3.Real('cx'); outp = {}
+    Aq, Bq, Xq, Wq, Vq, Dq, Eq = [z3.Real('h_' + n) for n in ('a', 'b', 'x', 'w', 'v', 'd', 'e')]; It = z3.Int('h_iter'); fresh = {}
+    fns = [k for k in mod.funcs if 'Brent8Minimize' in k]
+    if len(fns) != 1: return [ob(tag + '/function', 'broken', detail=str(fns))]
+    f = mod.funcs[fns[0]]; need = ('a', 'b', 'x', 'w', 'v', 'fx', 'fw', 'fv', 'd', 'e', 'iter')
+    heads = [b for b in loop_headers(f) if set(I.dest.lstrip('%').split('.')[0] for I in f.blocks[b] if I.op == 'phi') == set(need)]
+    if len(heads) != 1: return [ob(tag + '/loop-state', 'undecided', key='C11/brent/loop-step', detail='no loop header carrying exactly %s: %s' % (need, [(b, sorted(set(I.dest for I in f.blocks[b] if I.op == 'phi'))) for b in loop_headers(f)]))]
+    LO = z3.If(AX < CX, AX, CX); HI = z3.If(AX < CX, CX, AX)
+    def handler(it, f_, blk, regs, st):
+        val = {'a': Aq, 'b': Bq, 'x': Xq, 'w': Wq, 'v': Vq, 'fx': F1(Xq), 'fw': F1(Wq), 'fv': F1(Vq), 'd': Dq, 'e': Eq, 'iter': It}
+        for I in f_.blocks[blk]:
+            if I.op == 'phi': base = I.dest.lstrip('%').split('.')[0]; regs[I.dest] = val[base]; fresh[base] = I.dest
+        st.pc += [LO <= Aq, Aq <= Xq, Xq <= Bq, Bq <= HI, LO <= Wq, Wq <= HI, LO <= Vq, Vq <= HI, F1(Xq) <= F1(Wq), F1(Xq) <= F1(Vq), It >= 0, It <= 99]
+        st.events.append(('havoc', len([e for e in st.events if e[0] == 'call'])))
+    def out(st): outp['a'] = st.alloc(16); return outp['a']
+    it = Interp(mod, intercept=user_f(maxcalls=4), limits=Limits(max_paths=3000, feas_ms=500, max_seconds=500)); it.havoc[(fns[0], heads[0])] = handler
+    st = it.new_state(); st.pc += [between(AX, BX, CX), TOL > 0]
+    ps = it.execute('@verif_c11_brent', [AX, BX, CX, TOL, out(st)], st)
+    mv0 = {'ax': AX, 'bx': BX, 'cx': CX, 'tol': TOL, 'h_a': Aq, 'h_b': Bq, 'h_x': Xq, 'h_w': Wq, 'h_v': Vq, 'h_fx': F1(Xq), 'h_fw': F1(Wq), 'h_fv': F1(Vq), 'h_d': Dq, 'h_e': Eq, 'h_iter': It, 'loop_step': 1}; nret = nback = 0
+    for pi, p in enumerate(ps):
+        hv = [e for e in p.st.events if e[0] == 'havoc']
+        if not hv: continue
+        cs = calls(p.st)[hv[0][1]:]; hyp = p.st.pc + alg_assumptions(p.st); mv = dict(mv0, calls_x=[c[1][0] for c in cs], calls_f=[c[2] for c in cs])
+        for ci, c in enumerate(cs):
+            res.append(prove('%s/evaluates-inside-current-bracket[%d,%d]' % (tag, pi, ci), hyp, z3.And(Aq <= toR(c[1][0]), toR(c[1][0]) <= Bq), 60000, mv, key='C11/brent/loop-step/evaluates-inside', tactic='nra'))
+        if p.end is None:
+            nret += 1; xm, fm = [toR(p.st.load(outp['a'] + 8 * i, 8, True)) for i in range(2)]
+            res.append(prove('%s/returns-the-current-best-point[%d]' % (tag, pi), hyp, z3.And(toR(p.ret) == Xq, xm == Xq, fm == F1(Xq)), 30000, mv, key='C11/brent/loop-step/return', tactic='nra'))
+        elif p.end.kind == 'backedge':
+            nback += 1; be = [e for e in p.st.events if e[0] == 'backedge'][-1][2]; g = lambda k: toR(be[fresh[k]])
+            inv = [Aq <= g('a'), g('a') <= g('x'), g('x') <= g('b'), g('b') <= Bq, LO <= g('w'), g('w') <= HI, LO <= g('v'), g('v') <= HI,
+                   g('fx') == F1(g('x')), g('fw') == F1(g('w')), g('fv') == F1(g('v')), g('fx') <= g('fw'), g('fx') <= g('fv'), g('fx') <= F1(Xq), toI(be[fresh['iter']]) == It + 1] + [g('fx') <= toR(c[2]) for c in cs]
+            res.append(prove('%s/back-edge-re-establishes-the-invariant[%d]' % (tag, pi), hyp, z3.And(*inv), 90000, mv, key='C11/brent/loop-step/invariant', tactic='nra', sample=(nback == 1)))
+        elif p.end.kind == 'exit':
+            res.append(prove('%s/exit-only-at-the-iteration-cap[%d]' % (tag, pi), hyp, It == 99, 30000, mv, key='C11/brent/loop-step/exit'))
+        elif p.end.kind != 'cutoff':
+            res.append(prove('%s/no-%s[%d]' % (tag, p.end.kind, pi), hyp, z3.BoolVal(False), 20000, mv, key='C11/brent/' + p.end.kind, detail=str(p.end)))
+    res.append(ob(tag + '/coverage', 'discharged' if nret and nback else 'broken', key='C11/coverage', detail='%d returning, %d back-edge paths from the arbitrary state (%d paths)' % (nret, nback, len(ps))))
     return res
 
 def job_findmin(K):
@@ -129,7 +176,7 @@ def job_nm(nd, mode, extra):
 
 def jobs(ctx):
     module(ctx); b = BOUNDS[ctx.tier]
-    J = [(job_bracket, (b['bracket_evals'],)), (job_brent, (b['brent_evals'],)), (job_findmin, (b['findmin_evals'],))]
+    J = [(job_brent_step, ()), (job_bracket, (b['bracket_evals'],)), (job_brent, (b['brent_evals'],)), (job_findmin, (b['findmin_evals'],))]
     for nd in b['nm_dims']:
         for mode in (0, 1, 2): J.append((job_nm, (nd, mode, b['nm_extra_evals'] if nd < 3 else 2)))
     return J
@@ -152,6 +199,20 @@ def replay(ctx, o):
     import ctypes
     from C02 import table_cb
     so = native(ctx); m = o['model'] or {}; key = o['key']
+    if m.get('loop_step'):
+        # the model is an arbitrary loop state of Brent (not reachable through the public entry by construction of a single call): native confirmation = the same clauses observed on a battery of objectives, brackets and tolerances
+        tested = 0
+        for f in (lambda x: (x - 0.3) ** 2, lambda x: math.cosh(x - 1.7), lambda x: abs(x + 0.4) ** 1.5, lambda x: x ** 4 - x, lambda x: -math.exp(-(x - 2.0) ** 2)):
+            for (ax, bx, cx) in ((-3.0, 0.5, 4.0), (4.0, 0.5, -3.0), (-1.0, -0.9, 5.0), (0.0, 2.9, 3.0)):
+                for tol in (1e-2, 1e-5, 1e-9):
+                    if not (f(bx) <= f(ax) and f(bx) <= f(cx)): continue
+                    r = nat.call(so, 'verif_c11_brent', [ax, bx, cx, tol, ('dbl[]', [0.0, 0.0])], fcb=f); tested += 1
+                    lo, hi = min(ax, cx), max(ax, cx)
+                    if r['status'] != 'ok': return True, 'native Brent on (%r,%r,%r), tol %r: %s' % (ax, bx, cx, tol, r['status'])
+                    xm, fm = r['arrays'][0]; least = min(c[1] for c in r['calls']); out = [c[0][0] for c in r['calls'] if not (lo <= c[0][0] <= hi)]
+                    if out or not (lo <= xm <= hi) or fm != f(xm) or fm > least:
+                        return True, 'native Brent on (%r,%r,%r), tol %r: x_min=%r f_min=%r, least value seen %r, evaluations outside the bracket %s' % (ax, bx, cx, tol, xm, fm, least, out)
+        return False, 'native Brent on %d objective / bracket / tolerance combinations: every evaluation and the result inside the bracket, f_min is the least value seen' % tested
     if key.startswith('C11/nm'):
         nd, mode = m['nd'], m['mode']; start = [q2f(q) for q in m['start']]; npts = nd + 1
         sigv = ctypes.CFUNCTYPE(ctypes.c_double, ctypes.POINTER(ctypes.c_double), ctypes.c_ulong)
